@@ -159,6 +159,8 @@ func features(c *Case, res *Result) []string {
 	add(c.BadNeighbour, "layers.bad-neighbour")
 	add(len(res.mem.Pre) > 0, "op.prereader.callbacks")
 	add(c.Coalesce != "", "sched.coalesce."+c.Coalesce)
+	add(c.Comp == "", "format.gzip")
+	add(c.Comp != "", "format."+c.Comp)
 	for site, n := range res.injected {
 		add(n > 0, "sched.batch-failure-injected."+site)
 		add(site == "nodes" && n > 1, "sched.batch-failure-injected.nodes-streams")
@@ -201,6 +203,7 @@ const (
 	sigLateDir    = "dir-entry-after-child-nlink"
 	sigNoChunkDg  = "no-chunk-digest-fallback"
 	sigEarlyRoot  = "db-root-attr-before-init"
+	sigZstdDigest = "zstd-toc-digest-trailing-bytes"
 )
 
 func classify(ctx *hx.Ctx, id int, c *Case, res *Result, feats []string) {
@@ -275,6 +278,18 @@ func classify(ctx *hx.Ctx, id int, c *Case, res *Result, feats []string) {
 			unexplained = append(unexplained, d)
 		default:
 			unexplained = append(unexplained, d)
+		}
+	}
+	if c.Comp == "zstd" && c.Trail > 0 && len(unexplained) > 0 {
+		only := true
+		for _, d := range unexplained {
+			if d.Kind != "digest" && d.Kind != "tocdigest-memory" {
+				only = false
+			}
+		}
+		if only {
+			ctx.Finding(id, sigZstdDigest, "zstd:chunked TOC followed by trailing bytes: memory store's TOC digest covers only what the JSON decoder read", unexplained)
+			unexplained = nil
 		}
 	}
 	if len(unexplained) > 0 {
